@@ -2,22 +2,17 @@ package main
 
 import (
 	"fmt"
+	"os"
 
 	"github.com/frankkopp/FrankyGo/internal/config"
 	"github.com/frankkopp/FrankyGo/internal/movegen"
-	"github.com/frankkopp/FrankyGo/internal/position"
+	rc "github.com/frankkopp/FrankyGo/verifh/refchess"
 )
 
 func main() {
 	config.LogLevel = 0
-	p := position.NewPosition()
-	mg := movegen.NewMoveGen()
-	cyc := []string{"g1f3", "g8f6", "f3g1", "f6g8"}
-	for n := 0; n < 511; n++ {
-		p.DoMove(mg.GetMoveFromUci(p, cyc[n%4]))
-	}
-	fmt.Println("before", p.LastMove().StringUci(), p.CheckRepetitions(2), p.StringFen())
-	p.DoNullMove()
-	p.UndoNullMove()
-	fmt.Println("after ", p.LastMove().StringUci(), p.CheckRepetitions(2), p.StringFen())
+	fen := os.Args[1]
+	pf := movegen.NewPerft()
+	pf.StartPerft(fen, 4, true)
+	fmt.Println("od", pf.Nodes, "ref", rc.MustFEN(fen).Perft(4))
 }
